@@ -1012,6 +1012,9 @@ fn exec_line(ex: &mut Exec, line: &str) {
         "resolve" => {
             ex.resolve(parts[1], parts[2], parts[3]);
         },
+        "raw_split" => {
+            ex.raw_split(parse_u(parts[1]));
+        },
         "resolve_on" => {
             ex.resolve_on(parts[1], parts[2], parts[3]);
         },
